@@ -58,8 +58,9 @@ RULES = [
  (r"^C10\|(direct\|)?block5\|(PDE|MRF)\|dropped$", "RC-B5STRUCT", None),
  (r"^C10\|(direct\|)?block3\|43[34]\|changed$", "RC-B3SLASH", None),
  (r"^C16\|tokenise\|position-stamps-collide\|over-65536-fields$", "RC-POS16", None),
- (r"^C05\|Field\w+\|over-accept\|blank-line$", "RC-LINES", "C05|*|over-accept|blank-line"),
- (r"^C05\|Field\w+\|over-accept\|(stray-cr|control-char|nonascii)$", "RC-XCHARS", r"C05|*|over-accept|\1"),
+ (r"^C05\|Field\w+\|over-accept\|blank-line$", "RC-LINES", None),
+ (r"^C05\|Field\w+\|over-accept\|(control-char|nonascii)$", "RC-XCHARS", None),
+ (r"^C05\|Field\w+\|over-accept\|(stray-cr)$", "RC-XCHARS", r"C05|*|over-accept|\1"),
  (r"^C05\|Field5[2-57]B\|", "RC-OPTB", None),
  (r"^C05\|Field25(NoOption|A|P)\|", "RC-25SLASH", None),
  (r"^C05\|Field11[RS]?\|over-accept\|", "RC-11TRAIL", None),
